@@ -47,7 +47,7 @@ META = dict(
                       "scaling_checked": 250, "closed_form_checked": 50,
                       "cfb_compared": 150, "cfb_tight": 120,
                       "clustering_compared": 800, "complex_networks": 40,
-                      "large_networks": 20,
+                      "large_networks": 20, "weak_cut_networks": 100,
                       "history_updates_compared": 250,
                       "diameter_after_update_with_prior_store": 80,
                       "history_dtype_switch": 30},
@@ -56,6 +56,7 @@ META = dict(
                          "cfb_compared": 1000, "cfb_tight": 800,
                          "clustering_compared": 8000,
                          "complex_networks": 400, "large_networks": 300,
+                         "weak_cut_networks": 2500,
                          "history_updates_compared": 2500,
                          "diameter_after_update_with_prior_store": 1000,
                          "history_dtype_switch": 300}},
@@ -732,6 +733,90 @@ def check_history(ctx, RN, A, cid):
 
 
 # --------------------------------------------------------------------------
+def weakly_coupled(ctx, RN, g, cid):
+    """Two ohm-sized blocks joined by one large resistor B (or a chain with
+    a leak): the circuit is connected, so every law holds, but the second
+    Laplacian eigenvalue is ~1/B of the largest.  Closed forms: the joining
+    resistor is the only path between its ends (ER = B), a pair across the
+    cut obeys the series law ER(a,u) + B + ER(v,b) with the block values,
+    Foster's sum is N-1.  Tolerance 30 eps cond(L): the forward error of a
+    double-precision pseudo-inverse."""
+    n1, n2 = int(g.integers(2, 7)), int(g.integers(2, 7))
+    A1 = gg.random_connected(g, n1, n1) if n1 > 2 else np.array([[0, 1],
+                                                                   [1, 0]])
+    A2 = gg.random_connected(g, n2, n2) if n2 > 2 else np.array([[0, 1],
+                                                                   [1, 0]])
+    n1, n2 = len(A1), len(A2)
+    kind = str(g.choice(["equal", "ints", "decade"]))
+    r1, r2 = weight_topology(g, A1, kind), weight_topology(g, A2, kind)
+    B = float(g.choice([1e4, 3e5, 2e6, 1e7, 1e8]))
+    unit = float(g.choice([1.0, 1.0, 1e3, 1e-3]))
+    n = n1 + n2
+    r = np.zeros((n, n))
+    r[:n1, :n1], r[n1:, n1:] = r1, r2
+    u, v = int(g.integers(0, n1)), n1 + int(g.integers(0, n2))
+    r[u, v] = r[v, u] = B
+    r *= unit
+    case = {"n": n, "resistances": r, "bridge": [u, v], "B": B * unit}
+    ok, net = ctx.call(RN, r.copy(), silence_level=3)
+    ctx.evals()
+    if not ok:
+        ctx.violation(f"constructor:raises:{type(net).__name__}:weak-cut",
+                      {**case, "exc": repr(net)}, cid)
+        return
+    ok, L = ctx.call(er_matrix, net, n)
+    ctx.evals(n * n)
+    if not ok:
+        ctx.violation(f"effective_resistance:raises:{type(L).__name__}"
+                      ":weak-cut", {**case, "exc": repr(L)}, cid)
+        return
+    ctx.count("weak_cut_networks")
+    ctx.nontrivial(("weak", n, r.tobytes()))
+    E1 = ref.effective_resistance_matrix(r[:n1, :n1])
+    E2 = ref.effective_resistance_matrix(r[n1:, n1:])
+    want = np.zeros((n, n))
+    want[:n1, :n1], want[n1:, n1:] = E1, E2
+    for a in range(n1):
+        for b in range(n1, n):
+            want[a, b] = want[b, a] = E1[a, u] + B * unit + E2[v - n1,
+                                                                b - n1]
+    # forward error of a double-precision pseudo-inverse: a few eps times
+    # the condition number lambda_max/lambda_2 (observed <= 0.9 eps*cond)
+    Y = ref.admittance(r)
+    ev = np.linalg.eigvalsh(ref.laplacian(Y))
+    cond = float(ev[-1] / ev[1])
+    T = max(1e-9, 30 * np.finfo(float).eps * cond)
+    ctx.maxstat("weak_cut_condition_number", cond)
+    if abs(L[u, v] - B * unit) > T * B * unit:
+        ctx.violation("effective_resistance:only-path-resistor:weak-cut",
+                      {**case, "lib": L[u, v]}, cid)
+    cross = np.zeros((n, n), bool)
+    cross[:n1, n1:] = cross[n1:, :n1] = True
+    e = relerr(L[cross], want[cross])
+    ctx.maxstat("weak_cut_series_err_over_eps_cond",
+                e / (np.finfo(float).eps * cond))
+    if e > T:
+        ctx.violation("effective_resistance:series-law:weak-cut",
+                      {**case, "max_rel_err": e}, cid)
+    inner = ~cross & ~np.eye(n, dtype=bool)
+    if np.any(np.abs(L[inner] - want[inner]) > T * B * unit * 1e-2 +
+              1e-6 * np.abs(want[inner])):
+        ctx.violation("effective_resistance:inside-block:weak-cut",
+                      {**case, "lib": L, "ref": want}, cid)
+    fs = sum(L[i, j] / r[i, j] for i, j in ref.links(r))
+    ctx.count("foster_checked")
+    if abs(fs - (n - 1)) > 10 * T * (n - 1):
+        ctx.violation("effective_resistance:foster:weak-cut",
+                      {**case, "sum": fs, "want": n - 1}, cid)
+    ok, av = ctx.call(net.average_effective_resistance)
+    ctx.evals()
+    wav = want[np.triu_indices(n, 1)].mean()
+    if not ok or abs(av - wav) > T * wav:
+        ctx.violation("average_effective_resistance:differs:weak-cut",
+                      {**case, "lib": av if ok else repr(av), "ref": wav},
+                      cid)
+
+
 def run(ctx):
     from pyunicorn.core.resistive_network import ResNetwork as RN
 
@@ -787,6 +872,12 @@ def run(ctx):
                             ctx.sample({"case": cid, "n": len(A),
                                         "links": int(A.sum() // 2),
                                         "kind": kind})
+        # 2b. weakly coupled circuits (one large resistor across a cut)
+        if k <= cap_hist:
+            cid = f"weak:{k}"
+            if ctx.want(cid):
+                with ctx.guard(60):
+                    weakly_coupled(ctx, RN, ctx.rng("weak", k), cid)
         # 3. large networks, effective-resistance laws only
         if k <= cap_big:
             cid = f"big:{k}"
